@@ -93,6 +93,13 @@ func Load(dir string, overlay map[string][]byte) (*Program, error) {
 		sp.Build()
 		p.SSAPkgs[pk.PkgPath] = sp
 	}
+	// module packages outside the patterns (e.g. protos) are built too, so that
+	// their trivial getters can be seen through; they are not analysis targets.
+	for _, sp := range prog.AllPackages() {
+		if sp.Pkg != nil && strings.HasPrefix(sp.Pkg.Path()+"/", Mod) && p.SSAPkgs[sp.Pkg.Path()] == nil {
+			sp.Build()
+		}
+	}
 	// index functions
 	seen := map[*ssa.Function]bool{}
 	var add func(fn *ssa.Function)
